@@ -13,6 +13,7 @@ package raft
 //vcheck:stub raft.ILogDB = in-memory model (marker index/term + contiguous entries + snapshot record) written in the harness; logger = no-op with Panicf as Go panic; random election jitter = fresh symbolic value
 
 import (
+	"github.com/lni/dragonboat/v4/config"
 	"github.com/lni/dragonboat/v4/internal/server"
 	pb "github.com/lni/dragonboat/v4/raftpb"
 )
@@ -461,6 +462,12 @@ func vRaft(o vRaftOpts) (*raft, vCluster) {
 	c := vCluster{shape: sh, member: pick < len(ids)}
 	if c.member {
 		c.self = ids[pick]
+		c.member = false
+		for _, id := range sh.all() {
+			if id == c.self {
+				c.member = true
+			}
+		}
 	} else {
 		c.self = 9
 	}
@@ -611,19 +618,33 @@ func vRaft(o vRaftOpts) (*raft, vCluster) {
 		}
 		r.votes[c.self] = true
 		if o.votes {
+			yes, no := 1, 0
 			for _, id := range sh.voting() {
 				if id != c.self {
 					switch vChoose("voted", 3) {
 					case 1:
 						r.votes[id] = true
+						yes++
 					case 2:
 						r.votes[id] = false
+						no++
 					}
 				}
 			}
+			// a candidate that already had a quorum of grants (or rejections) is not
+			// a candidate any more
+			q := len(sh.voting())/2 + 1
+			vAssume(yes < q && no < q)
 		}
 	}
 	r.resetMatchValueArray()
+	if r.state == leader {
+		// r.matched is scratch space reused by every tryCommit: whatever an earlier
+		// call left in it must not matter
+		for i := range r.matched {
+			r.matched[i] = vU64("scratch")
+		}
+	}
 	r.initializeHandlerMap()
 	r.handle = defaultHandle
 	return r, c
@@ -667,8 +688,9 @@ func vFrame(p *vPre, r *raft, c vCluster, tag string) {
 	vAssert(vImplies(covered, vAnd(ok1, vAnd(t1 == t0, ty1 == ty0))), tag+"L1-committed-prefix-immutable")
 	// C18 only voting members campaign or lead; C03 leader only from candidate
 	if r.state == leader && p.state != leader {
-		vAssert(p.state == candidate, tag+"V4-leader-only-from-candidate")
-		vAssert(r.term == p.term, tag+"V4-leader-same-term")
+		// (the only voting member of a shard elects itself within the campaign step)
+		vAssert(p.state == candidate || len(c.shape.voting()) == 1, tag+"V4-leader-only-from-candidate")
+		vAssert(p.state != candidate || r.term == p.term, tag+"V4-leader-same-term")
 	}
 	if r.state == candidate || r.state == preVoteCandidate || r.state == leader {
 		vAssert(p.state != nonVoting && p.state != witness, tag+"R18-nonvoter-never-campaigns")
@@ -733,4 +755,8 @@ func vFrame(p *vPre, r *raft, c vCluster, tag string) {
 		vAssert(!b, tag+"M-kinds-disjoint")
 	}
 	vLogInvAssert(r.log, tag)
+}
+
+func vConfig(self uint64) config.Config {
+	return config.Config{ShardID: 1, ReplicaID: self, ElectionRTT: 3, HeartbeatRTT: 1}
 }
